@@ -146,16 +146,12 @@ theorem quotedTag_clean (tag acc : Str) (h : CleanTag tag) :
     rw [ih (c :: acc) ht]
     simp
 
-theorem parseEtags_quoted (tag : Str) (hne : tag ≠ []) (h : CleanTag tag) :
+theorem parseEtags_quoted (tag : Str) (h : CleanTag tag) :
     parseEtags (some (quoteTag tag)) = ⟨[some tag], [], false⟩ := by
   unfold parseEtags quoteTag
   have hq := quotedTag_clean tag [] h
   simp only [List.reverse_nil, List.nil_append] at hq
-  have hte : tag.isEmpty = false := by
-    cases tag with
-    | nil => exact absurd rfl hne
-    | cons _ _ => rfl
-  simp [parseEtagsLoop, hq, hte]
+  simp [parseEtagsLoop, hq]
 
 theorem strip_quoteTag (tag : Str) : Py.strip (quoteTag tag) = quoteTag tag := by
   unfold Py.strip Py.rstripBy quoteTag
@@ -315,7 +311,7 @@ theorem item_open (d1 : Str) (h1 : IsDigits d1) (lastEnd : Int) (hl : 0 ≤ last
     simp; omega
   simp [c2]
 
-theorem item_suffix (d : Str) (h : IsDigits d) (lastEnd : Int) (hl : 0 ≤ lastEnd)
+theorem item_suffix (d : Str) (h : IsDigits d) (hpos : 0 < digitsVal d) (lastEnd : Int) (hl : 0 ≤ lastEnd)
     (rest : List Str) (acc : List (Int × Option Int)) :
     parseRangeItems (('-' :: d) :: rest) lastEnd acc =
       parseRangeItems rest (-1) ((-(digitsVal d : Int), none) :: acc) := by
@@ -326,7 +322,20 @@ theorem item_suffix (d : Str) (h : IsDigits d) (lastEnd : Int) (hl : 0 ≤ lastE
     · exact digit_not_space (h.2 c hc)
   rw [parseRangeItems]
   have c0 : ¬ lastEnd < 0 := by omega
-  simp [strip_noSpace _ hsp, plainInt_neg_digits d h, c0]
+  have c1 : ¬ (digitsVal d = 0) := by omega
+  simp [strip_noSpace _ hsp, plainInt_neg_digits d h, c0, c1]
+
+/-- a suffix length of zero makes the whole header unparsable (84dd3fe) -/
+theorem item_suffix_zero (d : Str) (h : IsDigits d) (hz : digitsVal d = 0) (lastEnd : Int)
+    (rest : List Str) (acc : List (Int × Option Int)) :
+    parseRangeItems (('-' :: d) :: rest) lastEnd acc = none := by
+  have hsp : ∀ c ∈ '-' :: d, Py.isSpace c = false := by
+    intro c hc
+    rcases List.mem_cons.mp hc with rfl | hc
+    · decide
+    · exact digit_not_space (h.2 c hc)
+  rw [parseRangeItems]
+  simp [strip_noSpace _ hsp, plainInt_neg_digits d h, hz]
 
 /-- after an open-ended or suffix item every further item makes the header unparsable -/
 theorem item_after_open (item : Str) (rest : List Str) (acc : List (Int × Option Int)) :
